@@ -37,6 +37,9 @@ type Case struct {
 	Types []OType `json:"types"` // Types[0] is the root @main
 	Order []int   `json:"order,omitempty"`
 	Wrap  int     `json:"wrap,omitempty"` // 0: root inherits itself; 1: root nests the inheriting object; 2: root only references @t0
+	// Extra: 1 = every type object is asked Check() alone before it is registered; 2 = after all registrations
+	// the root is offered another type under the name of every parent (refused: the name is taken)
+	Extra int `json:"extra,omitempty"`
 }
 
 func (o OType) node() *model.Node {
@@ -399,7 +402,30 @@ func oracle(c Case) *ev.Verdict {
 	}
 	ev.Guard("inheritance", c)
 	defer ev.Unguard()
+	single := true // (a merge that fails after its first parent leaves the type half-extended: C10 known finding)
+	for _, t := range c.Types {
+		single = single && len(t.AllOf) <= 1
+	}
+	tp.PreCheck = c.Extra == 1 && single
 	b := sut.Build(tp)
+	if c.Extra == 2 {
+		// a second registration under a taken name is refused and changes nothing
+		for _, t := range c.Types[1:] {
+			t := t
+			if t.Withheld {
+				continue
+			}
+			var err error
+			if esc := sut.Trap("AddType(taken name)", func() {
+				err = b.S.AddType(t.Name, jschema.New(t.Name, "{\n  \"intruder\": 1, // {optional: true}\n  \"intruder2\": \"x\"\n}"))
+			}); esc != nil {
+				return ev.V("panic:AddType-taken-name:"+esc.Frame, "AddType under the taken name %s panicked: %s\n%s", t.Name, esc.Value, tp)
+			}
+			if err == nil {
+				return ev.V("taken-name:accepted", "a second AddType(%s) is accepted\n%s", t.Name, tp)
+			}
+		}
+	}
 	var cerr *sut.ErrInfo
 	if esc := sut.Trap("Check", func() { cerr = sut.Describe(b.S.Check()) }); esc != nil {
 		return ev.V("panic:Check:"+esc.Frame, "Check() panicked: %s\n%s", esc.Value, tp)
@@ -709,6 +735,7 @@ func genCase(t *rapid.T) Case {
 			c.Order[i], c.Order[j] = c.Order[j], c.Order[i]
 		}
 	}
+	c.Extra = rapid.SampledFrom([]int{0, 0, 1, 2}).Draw(t, "extra")
 	return c
 }
 
